@@ -1,5 +1,6 @@
 """Generic driver for properties decided by the `rt` harness (C10-C15, C19).
 A plan is a dict: tier -> list of steps; step = (instrument, part name, prop-args dict)."""
+import os
 import zlib
 
 import common
@@ -76,9 +77,13 @@ def execute(chk, prop, steps):
 def run_tsan(chk, binary, prop, seed, count, kv, part, timeout):
     import re
     cmd = [binary, prop, str(seed), str(count)] + list(kv)
-    r = common.run(cmd, env=common.env_with({"TSAN_OPTIONS": "halt_on_error=1:exitcode=66:second_deadlock_stack=1"}), timeout=timeout)
+    r = common.run(cmd, env=common.env_with({"TSAN_OPTIONS": "halt_on_error=1:exitcode=66:second_deadlock_stack=1:print_suppressions=1:suppressions=" + os.path.join(common.VERIF, "lib", "tsan.supp")}), timeout=timeout)
     recs = common.parse_jsonl(r["out"])
     common.ingest_reports(chk, recs, part)
+    ms = re.search(r"ThreadSanitizer: Matched (\d+) suppressions", r["err"])
+    if ms:
+        st = chk.parts.setdefault(part, {})
+        st["tsan_reports_suppressed_as_fence_artefacts"] = st.get("tsan_reports_suppressed_as_fence_artefacts", 0) + int(ms.group(1))
     if "WARNING: ThreadSanitizer" in r["err"]:
         m = re.search(r"WARNING: ThreadSanitizer: ([^\n(]*)", r["err"])
         chk.violation("%s:tsan:%s" % (chk.pid, m.group(1).strip() if m else "report"), r["err"][:3000], dict(cmd=cmd))
